@@ -44,6 +44,13 @@ pub fn hostile(ctx: &mut Ctx, ev: Ev, sz: &Sizes, kind_prefix: &str, f: &mut dyn
             }
         }
     }
+    if sz.bombs {
+        for (i, b) in int_grid(ev).iter().enumerate() {
+            if ctx.mine() {
+                f(ctx, Case::new(ev, &format!("{}w5", kind_prefix), b, ph_at(&pool, i as u64)));
+            }
+        }
+    }
     // W1
     for (full, maxlen) in [(true, sz.w1_full), (false, sz.w1_class)] {
         let vocab = w1_vocab(ev, full, ctx.seed);
